@@ -1,6 +1,7 @@
 package proxy
 
 import (
+	"context"
 	"errors"
 	"fmt"
 	"log/slog"
@@ -313,8 +314,12 @@ func (f *fetcher) dedupFetch(req *http.Request, key cache.CacheKey, clientHd *he
 
 	originalClientHd := *clientHd // Copy the original client headers so the shared requests don't get a modified version
 
+	// The fetch may be shared with other clients, so it must not die with the client that
+	// happens to start it: detach it from that request's cancellation.
+	sharedReq := req.WithContext(context.WithoutCancel(req.Context()))
+
 	fetchedObj, err, shared := f.group.Do(key.Hex, func() (any, error) {
-		return f.getFromCacheOrFetch(req, key, clientHd)
+		return f.getFromCacheOrFetch(sharedReq, key, clientHd)
 	})
 	if err != nil {
 		if errors.Is(err, ErrNotCacheable) {
